@@ -500,6 +500,10 @@ func runCred(kind string, c *CredCase, tr *hx.Trace) {
 			}
 
 			tam := strings.Replace(string(singleBytes), old, fieldValue(f, c.Val+777), 1)
+			if tam == string(singleBytes) || old == "" {
+				fail("cred-harness-tamper", "the revealed value to change does not occur in the derived credential")
+			}
+
 			sup := make([]int, len(all))
 
 			for kk, i := range all {
@@ -515,8 +519,56 @@ func runCred(kind string, c *CredCase, tr *hx.Trace) {
 			expect = append(expect, vReject)
 		}
 
+		// every statement of the derived document must be covered by the proof: revealed = proof statements + them
+		nRevealed := 0
+		for _, b := range proofBytes[2:min(2+count/8+1, len(proofBytes))] {
+			for ; b != 0; b &= b - 1 {
+				nRevealed++
+			}
+		}
+
+		obs["revealed_count"] = nRevealed
+
+		if nRevealed != np+len(derSt) {
+			fail("cred-unproven-statements"+c.formSuffix(), fmt.Sprintf("derived proof #%d reveals %d messages (%d proof statements) but the derived credential has %d statements: the others are accepted unverified",
+				pi+1, nRevealed, np, len(derSt)))
+		}
+
+		// a claim ADDED to the derived credential (refreshService: its statements sort after all others when every node
+		// has an IRI).  If the original statements stay a prefix this is the supplemented list of the known finding.
+		if addedBytes, addedSt := addClaim(single); addedBytes != nil {
+			sup := make([]int, 0, len(all)+2)
+			for _, i := range all {
+				sup = append(sup, i+1)
+			}
+
+			isSuffix := len(addedSt) > len(derSt)
+			for i := range derSt {
+				if !isSuffix || addedSt[i] != derSt[i] {
+					isSuffix = false
+				}
+			}
+
+			if isSuffix {
+				for j := len(derSt); j < len(addedSt); j++ {
+					sup = append(sup, 9100+j)
+				}
+
+				v4, _ := verifyWith(addedBytes, nonce, fetcher)
+				atts = append(atts, Attack{Kind: "supplied", Label: "claim-added", Supplied: sup})
+				vs = append(vs, v4)
+				expect = append(expect, vReject)
+			}
+		}
+
 		for i := range vs {
 			if vs[i] != expect[i] {
+				if atts[i].Label == "claim-added" && vs[i] == vAccept {
+					fail("supplemented-suffix-accept", fmt.Sprintf("derived proof #%d: a credential with an ADDED claim (statements sorting after the revealed ones) verifies: VerifyProof ignores the surplus messages", pi+1))
+
+					continue
+				}
+
 				d := ""
 				if i == 0 {
 					d = ": " + d0
@@ -549,6 +601,35 @@ func runCred(kind string, c *CredCase, tr *hx.Trace) {
 			fmt.Sprintf("subject-fields-revealed:%d/%d", len(c.Reveal), len(c.Present)), fmt.Sprintf("cred-proof-index:%d", pi)}
 		tr.Put(rec)
 	}
+}
+
+// addClaim returns the credential with an unsigned refreshService claim added, and its canonical statements.
+func addClaim(single map[string]interface{}) ([]byte, []string) {
+	m := map[string]interface{}{}
+	for k, v := range single {
+		m[k] = v
+	}
+
+	m["refreshService"] = map[string]interface{}{"id": "https://zzz.example/refresh/1", "type": "ManualRefreshService2018"}
+
+	b, err := json.Marshal(m)
+	if err != nil {
+		return nil, nil
+	}
+
+	noProof := map[string]interface{}{}
+	for k, v := range m {
+		if k != "proof" {
+			noProof[k] = v
+		}
+	}
+
+	st, err := canonLines(noProof)
+	if err != nil {
+		return nil, nil
+	}
+
+	return b, st
 }
 
 func (c *CredCase) nBBS() int {
